@@ -1,7 +1,8 @@
 """C28 - Optional transformations don't change program behaviour.
 
 Differential tie: generated C (+ a little inline asm) programs that print checksums of data reached through
-pointers, strings (mergeable sections), TLS (all access models the compiler picks), function pointers, IFUNCs,
+pointers, strings (mergeable sections), TLS (all access models the compiler picks, plus an object compiled -mtls-dialect=gnu2 -fPIC whose
+TLS-descriptor sequences on global, static, main-defined and library-defined __thread variables every variant contains), function pointers, IFUNCs,
 static constructors and a shared library; each linked by wild under the option lattice
 {relax, no-relax} x {string merging on/off} x {pack-relative-relocs on/off} x {hash-style gnu/sysv/both} x
 {build-id none/fast} and as static / static-PIE / PIE / dynamic non-PIE where the program allows; run natively;
@@ -11,6 +12,7 @@ import os
 import shutil
 
 from .. import c01c38_common as cc
+from .. import elfread
 from .. import linkutil as lu
 
 NEEDS_WILD = True
@@ -74,7 +76,42 @@ def gen_program(r, idx):
     L.append("__attribute__((weak)) extern int undefined_weak_sym; __attribute__((weak)) int weak_fn(void);")
     if uses_lib:
         L.append("extern int lib_data[4]; extern int lib_fn(int); extern const char *lib_str(void); extern __thread int lib_tls; extern int *lib_tls_addr(void); extern int lib_cb(int (*)(int), int);")
+    # TLS-descriptor code: two separate objects compiled -mtls-dialect=gnu2 -fPIC.
+    #  tlsd (general-dynamic descriptors): global __thread variables defined there, in main and (when there is one) in the shared library:
+    #       lea x@TLSDESC(%rip),%rax; call *x@TLSCALL(%rax) sequences that an executable link rewrites or keeps; observed through h (line 1).
+    #  tlsl (local-dynamic descriptors): static __thread variables reached through the _TLS_MODULE_BASE_ descriptor + x@dtpoff; observed
+    #       through a hash of their own (line 2) so that a wrong module base is told apart from everything else; the variables sit inside
+    #       guarded structs so that an access that is off by less than 64 bytes cannot disturb anybody else's TLS.
+    gn = r.range(2, 4)
+    gv = [r.range(1, 500) for _ in range(gn)]
+    sbuf = r.choice([1, 5, 16, 33])
+    T = ["#include <stdint.h>",
+         f"__thread int gd_a = {gv[0]}; __thread long gd_b[{gn}] = {{{', '.join(str(v) for v in gv)}}}; __thread char gd_z[{r.choice([1, 7, 64])}];",
+         "extern __thread int tl0;" + (" extern __thread int lib_tls;" if uses_lib else ""),
+         "int tlsd_get(void){ return gd_a * 3 + gd_z[0]; }",
+         "void tlsd_bump(int v){ gd_a += v; gd_b[1] += tl0; gd_z[0] += 2;" + (" lib_tls += v;" if uses_lib else "") + " }",
+         f"long tlsd_sum(void){{ long t = gd_z[0]; for (int i = 0; i < {gn}; i++) t = t * 31 + gd_b[i]; return t" + (" + lib_tls" if uses_lib else "") + "; }",
+         "int *tlsd_addr(void){ return &gd_a; } int *tlsd_tl0_addr(void){ return &tl0; } long tlsd_gap(void){ return (char*)&gd_b[1] - (char*)&gd_b[0]; }",
+         "unsigned tlsd_align(void){ return (unsigned)((uintptr_t)&gd_b[0] % __alignof__(long)); }"]
+    tlsd = "\n".join(T) + "\n"
+    T2 = ["#include <stdint.h>",
+          f"static __thread struct {{ long lo[8]; int a; long z; char buf[{sbuf}]; long hi[8]; }} sd = {{ .lo = {{1, 2, 3, 4, 5, 6, 7, 8}}, .a = {gv[1]}, .z = {gv[0]}, .hi = {{9, 8, 7, 6, 5, 4, 3, 2}} }};",
+          f"static __thread struct {{ long lo[8]; long z; char buf[{r.choice([1, 9, 40])}]; long hi[8]; }} sb;",
+          "int tlsl_get(void){ return sd.a * 3 + (int)sb.z + (int)sd.z; }",
+          f"void tlsl_bump(int v){{ sd.a ^= v; sd.buf[{sbuf - 1}] = (char)v; sb.z += sd.z + 1; sb.buf[0] += 2; }}",
+          f"long tlsl_sum(void){{ long t = sd.buf[{sbuf - 1}] + sd.buf[0] + sb.z + sb.buf[0]; for (int i = 0; i < 8; i++) t = t * 31 + sd.lo[i] + sd.hi[i] + sb.lo[i] + sb.hi[i]; return t; }}",
+          "long tlsl_gap(void){ return ((char*)&sd.z - (char*)&sd.a) + ((uintptr_t)&sb.z % __alignof__(long)); }"]
+    tlsl = "\n".join(T2) + "\n"
+    L.append("extern __thread int gd_a; extern __thread long gd_b[]; extern int tlsd_get(void); extern void tlsd_bump(int); extern long tlsd_sum(void);"
+             " extern int *tlsd_addr(void); extern int *tlsd_tl0_addr(void); extern long tlsd_gap(void); extern unsigned tlsd_align(void);")
+    L.append("extern __thread char tls_fill[];")
+    L.append("extern int tlsl_get(void); extern void tlsl_bump(int); extern long tlsl_sum(void); extern long tlsl_gap(void);"
+             " static unsigned long h2; static void mix2(unsigned long v){ h2 = (h2 ^ v) * 1099511628211UL + 11; }")
     L.append("int main(void){")
+    L.append(f"    mix(tlsd_get()); mix(tlsd_sum()); tlsd_bump({r.range(1, 90)}); mix(tlsd_get()); mix(tlsd_sum()); mix(gd_a); gd_a += 4; mix(tlsd_get());")
+    L.append(f"    mix(tlsd_addr() == &gd_a); mix(tlsd_tl0_addr() == &tl0); mix(tlsd_gap()); mix(tlsd_align()); gd_b[0] = {r.range(1, 77)}; tlsd_bump(3); mix(tlsd_sum());")
+    L.append("    tls_fill[0] += 1; mix(tls_fill[0]);")
+    L.append(f"    mix2(tlsl_get()); mix2(tlsl_sum()); tlsl_bump({r.range(1, 90)}); mix2(tlsl_get()); mix2(tlsl_sum()); mix2(tlsl_gap()); tlsl_bump(3); mix2(tlsl_sum());")
     L.append(f"    for (unsigned i = 0; i < {nstr}; i++) mixs(*strtab[i]);")
     for i in range(nstr):
         L.append(f"    mixs(sa{i}); mix(strcmp(s{i}, sa{i}) == 0);")
@@ -90,13 +127,16 @@ def gen_program(r, idx):
     if uses_lib:
         L.append("    mix(lib_data[1]); lib_data[2] = 77; mix(lib_fn(5)); mixs(lib_str()); mix(lib_tls); lib_tls = 5; mix(*lib_tls_addr()); mix(lib_tls_addr() == &lib_tls);")
         L.append("    mix(lib_cb(f2, 50)); mix(lib_cb(ifn, 3));")
-    L.append('    printf("%lx\\n", h); return (int)(h & 63); }')
+    L.append('    printf("%lx\\n%lx\\n", h, h2); return (int)(h & 63); }')
     lib = None
     if uses_lib:
         lib = ("int lib_data[4] = {11, 22, 33, 44}; __thread int lib_tls = 3; static const char ls[] = \"libstring\";\n"
                "int lib_fn(int x){ return x + lib_data[2]; } const char *lib_str(void){ return ls; } int *lib_tls_addr(void){ return &lib_tls; }\n"
                "int lib_cb(int (*f)(int), int v){ return f(v) + 1; }\n")
-    return "\n".join(L) + "\n", lib, uses_lib
+    return "\n".join(L) + "\n", lib, uses_lib, tlsd, tlsl
+
+
+FILL_ASM = '    .section .tbss,"awT",@nobits\n    .globl tls_fill\n    .type tls_fill,@object\ntls_fill:\n    .zero %d\n    .size tls_fill, %d\n'
 
 
 def option_lattice(quick):
@@ -127,12 +167,22 @@ def run(ctx):
     nprog = 5 if ctx.quick else 15
     lattice = option_lattice(ctx.quick)
     for i in range(nprog):
-        main_c, lib_c, uses_lib = gen_program(r.fork(), i)
+        main_c, lib_c, uses_lib, tlsd_c, tlsl_c = gen_program(r.fork(), i)
         d = os.path.join(ctx.scratch, f"p{i}")
         os.makedirs(d, exist_ok=True)
         results = {}
+        tlspad = {}
         try:
             objs = {"pic": lu.cc_obj(d, "main_pic", main_c, ["-fPIE", "-O1"]), "nopic": lu.cc_obj(d, "main_nopic", main_c, ["-fno-pic", "-fno-pie", "-O1"])}
+            tlsd_o = lu.cc_obj(d, "tlsd_gnu2", tlsd_c, ["-fPIC", "-O1", "-mtls-dialect=gnu2"])
+            tlsl_o = lu.cc_obj(d, "tlsl_gnu2", tlsl_c, ["-fPIC", "-O1", "-mtls-dialect=gnu2"])
+            for o_, want in ((tlsd_o, "TLSDESC_CALL\tgd_a"), (tlsl_o, "TLSDESC_CALL\t_TLS_MODULE_BASE_")):
+                rc_, dis, _ = lu.run(["objdump", "-dr", o_])
+                if want not in dis:
+                    ctx.broken.append(f"generated program {i}: {os.path.basename(o_)} contains no R_X86_64_{want.replace(chr(9), ' against ')}")
+                ctx.count("tlsdesc-call-sites", "local-dynamic" if o_ is tlsl_o else "general-dynamic", dis.count("TLSDESC_CALL"))
+            tls_objs = [tlsd_o, tlsl_o]
+            fill = {"": lu.asm_obj(d, "fill_probe", FILL_ASM % (1, 1))}
             libs = []
             if uses_lib:
                 lo = lu.cc_obj(d, "lib", lib_c, ["-fPIC", "-O1"])
@@ -145,11 +195,23 @@ def run(ctx):
             ctx.broken.append(f"generated program {i} does not build: {str(ex)[:300]}")
             continue
         kinds = [("pie", "pic"), ("dyn", "nopic")] + ([] if uses_lib else [("static", "nopic"), ("static-pie", "pic")])
+        # The last object of every link only defines `__thread char tls_fill[K]`.  In every second program K is chosen per output kind (after a probe
+        # link with K = 1; the section has alignment 1 and comes last on the command line, so it ends the TLS segment) so that the TLS segment's size becomes a multiple of its alignment; the other programs keep whatever size comes out.
+        for (kind, ob) in kinds:
+            fill[kind] = fill[""]
+            if i % 2 == 0:
+                probe = os.path.join(d, "probe-" + kind)
+                rc, o, e = cc.link_c("wild", kind, [objs[ob]] + tls_objs + [fill[""]], probe, libs=libs)
+                if rc == 0:
+                    tl = [sg for sg in elfread.Elf(probe).segments if sg.type == 7]
+                    if tl:
+                        k_ = 1 + (-tl[0].memsz) % max(tl[0].align, 1)
+                        fill[kind] = lu.asm_obj(d, "fill_" + kind, FILL_ASM % (k_, k_))
         # reference: GNU ld, default options, per output kind (a few observations legitimately depend on the output kind even with
         # GNU ld, e.g. IFUNC pointer equality in PIE)
         refs = {}
         for (kind, ob) in kinds:
-            rc, o, e = cc.link_c("ld", kind, [objs[ob]], os.path.join(d, "ref-" + kind), libs=libs)
+            rc, o, e = cc.link_c("ld", kind, [objs[ob]] + tls_objs + [fill[kind]], os.path.join(d, "ref-" + kind), libs=libs)
             if rc != 0:
                 ctx.broken.append(f"GNU ld cannot link generated program {i} as {kind}: {e[:200]}")
                 continue
@@ -163,7 +225,7 @@ def run(ctx):
                 if ctx.quick and kind in ("static", "static-pie") and k >= 3:
                     continue
                 out = os.path.join(d, f"w-{kind}-{k}")
-                rc, o, e = cc.link_c("wild", kind, [objs[ob]], out, libs=libs, extra=opt_args(opt))
+                rc, o, e = cc.link_c("wild", kind, [objs[ob]] + tls_objs + [fill[kind]], out, libs=libs, extra=opt_args(opt))
                 ctx.note_case((main_c, opt, kind))
                 ctx.count("kind", kind)
                 ctx.count("relax", opt[0])
@@ -172,10 +234,20 @@ def run(ctx):
                     results[(kind, opt)] = ("link-fail", e.strip()[:300])
                     ctx.count("result", "link-fail")
                     continue
+                try:
+                    tl = [sg for sg in elfread.Elf(out).segments if sg.type == 7]
+                    tlspad[(kind, opt)] = ((-tl[0].memsz) % max(tl[0].align, 1), tl[0].memsz, tl[0].align) if tl else (0, 0, 0)
+                except Exception:
+                    tlspad[(kind, opt)] = (0, 0, 0)
+                ctx.count("tls-size-multiple-of-alignment", "yes" if tlspad[(kind, opt)][0] == 0 else "no")
                 rr = cc.run_exe(out, libdir=d)
                 results[(kind, opt)] = (rr[0], rr[1])
                 ctx.count("result", "same-as-ld" if (rr[0], rr[1]) == refs[kind] else "differs")
                 os.unlink(out)
+
+        def primary(v):
+            """exit status + first output line: everything except the observations of the local-dynamic TLS-descriptor object (second line)"""
+            return (v[0], v[1].split("\n")[0] if isinstance(v[1], str) and v[0] != "link-fail" else v[1])
         bad = {k: v for k, v in results.items() if v != refs[k[0]]}
         if bad:
             ctx.cov["impl_oracle_failures"] += len(bad)
@@ -184,17 +256,33 @@ def run(ctx):
             for fn in os.listdir(d):
                 if fn.endswith((".c", ".o", ".so")):
                     shutil.copy(os.path.join(d, fn), keep)
-            # group by the smallest description: which toggles are common to all failing variants
-            for (kind, opt), v in sorted(bad.items())[:6]:
+            how = "link main_pic.o/main_nopic.o + tlsd_gnu2.o tlsl_gnu2.o fill_<kind>.o (fill_probe.o if absent) (+ libl.so) with vlib/c01c38_common.link_c(kind, extra=options) and run with LD_LIBRARY_PATH=dir"
+            reported = set()
+            for (kind, opt), v in sorted(bad.items()):
                 ref = refs[kind]
-                same_kind_ok = [o2 for (k2, o2), v2 in results.items() if k2 == kind and v2 == ref]
+                if primary(v) == primary(ref):
+                    # only the local-dynamic TLS-descriptor observations differ
+                    pad, memsz, align = tlspad.get((kind, opt), (0, 0, 0))
+                    key = f"tlsdesc-local-dynamic:{'tls-size-not-multiple-of-alignment' if pad else 'tls-size-multiple-of-alignment'}"
+                    if key in reported:
+                        continue
+                    reported.add(key)
+                    ctx.violation(key, f"program {i} as {kind} with {' '.join(opt_args(opt))}: static __thread variables reached through the _TLS_MODULE_BASE_ descriptor "
+                                       f"(-mtls-dialect=gnu2 local-dynamic) read/written at the wrong place: second output line {v[1].split(chr(10))[1:2]} vs GNU ld's "
+                                       f"{ref[1].split(chr(10))[1:2]}; PT_TLS memsz 0x{memsz:x} align 0x{align:x} (padding to the thread pointer: {pad})",
+                                  {"dir": keep, "kind": kind, "options": opt_args(opt), "observed": v, "expected": ref, "pt_tls": {"memsz": memsz, "align": align}, "how": how})
+                    continue
+                # group by the smallest description: which toggles are common to all failing variants
+                same_kind_ok = [o2 for (k2, o2), v2 in results.items() if k2 == kind and primary(v2) == primary(ref)]
                 differing = ""
                 if same_kind_ok:
                     best = min(same_kind_ok, key=lambda o2: sum(a != b for a, b in zip(o2, opt)))
                     differing = ",".join(b for a, b in zip(best, opt) if a != b)
                 key = f"behaviour:{kind}:{differing or 'all-options'}:{'link' if v[0] == 'link-fail' else 'run'}"
+                if key in reported:
+                    continue
+                reported.add(key)
                 ctx.violation(key, f"program {i} as {kind} with {' '.join(opt_args(opt))}: {('link fails: ' + v[1]) if v[0] == 'link-fail' else f'exit {v[0]} stdout {v[1]!r}'}; "
                               f"GNU ld / sibling variants: exit {ref[0]} stdout {ref[1]!r}" + (f"; nearest passing variant differs in: {differing}" if differing else ""),
-                              {"dir": keep, "kind": kind, "options": opt_args(opt), "observed": v, "expected": ref,
-                               "how": "link main_pic.o/main_nopic.o (+ libl.so) with vlib/c01c38_common.link_c(kind, extra=options) and run with LD_LIBRARY_PATH=dir"})
+                              {"dir": keep, "kind": kind, "options": opt_args(opt), "observed": v, "expected": ref, "how": how})
         shutil.rmtree(d, ignore_errors=True)
